@@ -42,6 +42,11 @@ def inst_variant(seed, name):
     v = {"cf": name == "smp" or r.random() < 0.5}
     if name in ("ufs", "aufs", "diskd", "rock") and r.random() < 0.35:
         v["nomem"] = True      # every hit has to come from disk
+    # a second cache_dir of the same type with a size window: entries of unknown length that outgrow max-size are given up
+    # in mid swap-out, small ones are spread over both cache_dirs
+    r2 = random.Random(f"C10:{seed}:dirs:{name}")
+    if name in ("ufs", "aufs", "diskd") and r2.random() < 0.6:
+        v["second_dir"] = "cache_dir %s {W}/%s2 3 16 16 %s" % (name, name, r2.choice(["max-size=20000", "max-size=70000", "min-size=8192", "min-size=1000 max-size=40000"]))
     return v
 
 
@@ -380,6 +385,8 @@ def run(a, res):
             conf = re.sub(r"cache_mem \d+ MB", "cache_mem 0 MB", conf)
         if var["cf"]:
             conf += "collapsed_forwarding on\n"
+        if var.get("second_dir"):
+            cds = list(cds) + [var["second_dir"]]
         sq = Squid(a.work, conf=COMMON + conf, cache_dirs=cds, smp=smp)
         wit = {"seed": cases[0]["seed"], "case": cases[0]["n"]}
         try:
